@@ -6,6 +6,7 @@ import Pushr.Spec.C05
 import Pushr.Spec.C06
 import Pushr.Spec.C07
 import Pushr.Spec.C08
+import Pushr.Spec.C09
 /-! `exec` / `step` requests: one observed transition of the real interpreter state. -/
 open Pushr Codec
 
@@ -133,13 +134,55 @@ def c08Eval : PropEval := fun i pre post =>
      | none => none)
   | _, _ => none
 
+/-- C09: the README rule for element-wise operations; SORT yields an ordered permutation -/
+def c09Eval : PropEval := fun i pre post =>
+  match i, post with
+  | .vec t o, some post =>
+    let cmp (want : Option State) : Option String := match want with
+      | some w => if encState post == encState w then none
+                  else some ("README rule (overlapping positions only) prescribes " ++ encState w)
+      | none => none
+    (match t, o with
+     | .b, .and => cmp (C09.elementwiseSpec Lens.bvec pre (· && ·))
+     | .b, .or => cmp (C09.elementwiseSpec Lens.bvec pre (· || ·))
+     | .i, .add => cmp (C09.elementwiseSpec Lens.ivec pre (· + ·))
+     | .i, .sub => cmp (C09.elementwiseSpec Lens.ivec pre (· - ·))
+     | .f, .add => cmp (C09.elementwiseSpec Lens.fvec pre (· + ·))
+     | .f, .sub => cmp (C09.elementwiseSpec Lens.fvec pre (· - ·))
+     | .f, .mul => cmp (C09.elementwiseSpec Lens.fvec pre (· * ·))
+     | .i, .sortAsc | .i, .sortDesc =>
+       (match pre.ivec, post.ivec with
+        | v :: _, w :: _ =>
+          let key (x : Int32) : Nat := (x.toInt + 2147483648).toNat
+          let ordered := if o == .sortAsc then C09.isSortedBy (fun a b => decide (a ≤ b)) w
+                         else C09.isSortedBy (fun a b => decide (b ≤ a)) w
+          if ordered && C09.sameMultiset (v.map key) (w.map key) then none
+          else some "SORT must yield an ordered permutation of the vector"
+        | _, _ => none)
+     | .f, .sortAsc | .f, .sortDesc =>
+       (match pre.fvec, post.fvec with
+        | v :: _, w :: _ =>
+          let ordered := if o == .sortAsc then C09.isSortedBy (fun a b => decide (totalKey a ≤ totalKey b)) w
+                         else C09.isSortedBy (fun a b => decide (totalKey b ≤ totalKey a)) w
+          if ordered && C09.sameMultiset (v.map totalKey) (w.map totalKey) then none
+          else some "SORT must yield an ordered permutation of the vector"
+        | _, _ => none)
+     | _, _ => none)
+  | _, _ => none
+
 def propEvals : List (String × PropEval) :=
-  [("C01", panicFree), ("C04", c04Eval), ("C05", c05Eval), ("C06", c06Eval), ("C07", c07Eval), ("C08", c08Eval)]
+  [("C01", panicFree), ("C04", c04Eval), ("C05", c05Eval), ("C06", c06Eval), ("C07", c07Eval), ("C08", c08Eval),
+   ("C09", c09Eval)]
 
 /-- instruction names in the scope of a property's single-instruction scenario -/
 def scopeOf (pid : String) : List Instr :=
   match pid with
   | "C04" => Instr.all.filter C04.inTable
+  | "C09" => Instr.all.filter fun i => match i with
+    | .vec _ .rand => false
+    | .vec _ .loop => false
+    | .vec _ _ => true
+    | _ => false
   | "C08" => [.code .size, .code .extract, .code .insert, .code .position, .code .container, .code .subst,
               .code .car, .code .cdr, .code .cons, .code .list, .code .length, .code .nth, .code .null,
               .code .atom, .code .member, .code .contains, .code .eq, .code .discrepancy, .code .append]
